@@ -93,22 +93,33 @@ func (s *hist) okExpire() int64 {
 	}
 }
 
-// badExpire: expired for the next block (height, block time, or inside the 60 s guard).
-func (s *hist) badExpire() int64 {
+// badExpire: expired for the next block; kind 0 height, 1 block time, 2 only the now+60 s wall-clock
+// window (later than the header's block time), 3 TxHeight window not reached; -1 picks one.
+func (s *hist) badExpire(kind int) int64 {
 	hh, bt, now := s.g.Height()
-	switch s.r.Pick(3, 2, 2, 1) {
+	if kind < 0 {
+		kind = s.r.Pick(3, 2, 3, 1)
+	}
+	switch kind {
 	case 0:
 		return hh + 1 - int64(s.r.Intn(2)) // == next height, or below
 	case 1:
 		return bt - int64(s.r.Intn(3))
 	case 2:
-		return now + 59 - int64(s.r.Intn(30)) // not expired by block time perhaps, but inside the guard
+		t := now + 59 - int64(s.r.Intn(30))
+		if t <= bt {
+			t = bt + 1 + int64(s.r.Intn(5))
+		}
+		if t >= now+60 {
+			t = now + 59
+		}
+		return t // later than the block time, but inside the 60 s guard
 	default:
 		return mp.TxHeightFlag() + hh + 1 + 250 // TxHeight window not reached yet
 	}
 }
 
-var kinds = []string{"ok", "badsig", "inpool", "onchain", "expired", "feelow", "badto", "limit", "black", "noncelow", "noncepend", "ethok", "execbad", "feeexact", "expedge"}
+var kinds = []string{"ok", "badsig", "inpool", "onchain", "expired", "exp_h", "exp_t", "exp_w", "exp_x", "feelow", "badto", "limit", "black", "noncelow", "noncepend", "ethok", "execbad", "feeexact", "expedge"}
 
 func (s *hist) submitOne(kind string, group bool) {
 	r, g := s.r, s.g
@@ -117,6 +128,9 @@ func (s *hist) submitOne(kind string, group bool) {
 	var extra []mp.TxP // further group members
 	if group {
 		k := r.Range(1, 2)
+		if strings.HasPrefix(kind, "exp") {
+			k = r.Range(1, 3) // expiry on head / middle / last member of groups of 2..4
+		}
 		for j := 0; j < k; j++ {
 			q := s.fresh()
 			q.Exec = p.Exec
@@ -133,7 +147,27 @@ func (s *hist) submitOne(kind string, group bool) {
 	case "badsig":
 		all[v].Sig = []string{"bad", "nil"}[r.Intn(2)]
 	case "expired":
-		all[v].Exp = s.badExpire()
+		all[v].Exp = s.badExpire(-1)
+		if group && r.Chance(1, 4) {
+			all[r.Intn(len(all))].Exp = s.badExpire(-1) // a second expiring member
+		}
+	case "exp_h", "exp_t", "exp_w", "exp_x":
+		all[v].Exp = s.badExpire(strings.Index("htwx", kind[4:]))
+		if group {
+			// the other members are plainly acceptable: no expiry or far in the future
+			for j := range all {
+				if j != v {
+					all[j].Exp = []int64{0, mp.BaseTime + 100000}[r.Intn(2)]
+				}
+			}
+			pos := "middle"
+			if v == 0 {
+				pos = "head"
+			} else if v == len(all)-1 {
+				pos = "last"
+			}
+			out.Stat("scenario_group_expiry_on_"+pos, 1)
+		}
 	case "expedge":
 		hh, _, _ := g.Height()
 		all[v].Exp = hh + 1 + int64(r.Intn(2)) // next height (expired) or the one after (fine)
@@ -255,7 +289,11 @@ func history(h *mp.H, r *gen.Rand, idx int) {
 	nsub := r.Range(6, 16)
 	for i := 0; i < nsub; i++ {
 		kind := kinds[(idx+i*7+r.Intn(3))%len(kinds)]
-		s.submitOne(kind, r.Chance(1, 3))
+		grp := r.Chance(1, 3)
+		if strings.HasPrefix(kind, "exp") {
+			grp = r.Chance(3, 5) // expiry clauses matter most on members of groups
+		}
+		s.submitOne(kind, grp)
 		switch r.Pick(6, 1, 1, 1) {
 		case 1:
 			g.AddBlock()
